@@ -38,7 +38,7 @@ Line-protocol driver for the C20 model (`lake build c20drv`). All numbers are de
   runloop <iz> <n|o> <n|o>*                          -> off | <w|t>*   (Poller.Run: the pre-genesis guard around the ticks)
   ppre <height> <highest|->                          -> notip | tip(ident,txCount)   (the tick up to the latest poll, which fails)
 
-  `apply … -> changed <entry> cm=<nil|caller|shared|fresh>`: which OBJECT the affected entry's NewClasses map is (ClassAlias.lean);
+  `apply … -> changed <entry> cm=<nil|shared|own>`: which OBJECT the affected entry's NewClasses map is (ClassAlias.lean);
   `state` / `statebi` reads are followed by ` cm=<nil|fresh>`: the class table handed to pending.NewState (never a published map)
 
   classes: `-` or `h:d,h:d`     txs: `-` or `tx;tx`, tx = hash/tag/bad/rhash/rtag/events/diff/kind/reverted
@@ -286,7 +286,12 @@ def doApply (s : DState) (u : Update) (num baseTx oldest cls : String) : DState 
     | .changed chain aff =>
       let (cm2, r) := CAlias.applyClassRef cm1 u target caller
       let cOk := showPairs (CAlias.cget cm2 r) == showPairs aff.classes && sameBelow cm1.length cm1 cm2
-      let tok := CAlias.origin cm1.length target caller r
+      -- compared with the real maps: nil | shared (with the replaced, published entry) | own (the caller's map or a
+      -- new one: not distinguished, neither is an object any reader holds yet)
+      let tok := match CAlias.origin cm1.length target caller r with
+        | "caller" => "own"
+        | "fresh" => "own"
+        | t => t
       let crefs' := r :: s.crefs.drop (s.crefs.length - (chain.nodes.length - 1))
       ({ s with store := st', hstore := hs', cmem := cm2, crefs := crefs' },
         if !agree then "HEAP-MISMATCH " ++ showOutcome hout
